@@ -1,4 +1,5 @@
 import PsModel.Lemmas.C01
+import PsModel.Gen.Handlers
 import PsModel.Model.C01Rec
 /-!
 # C01 – property theorems: expressions and assignments evaluate exactly like Python
@@ -140,5 +141,20 @@ def sample : List Stmt :=
    .expr (.fstr [.lit 1, .fmt (.name "a") none (some (.fstr [.lit 2]))]),
    .del [.name "z", .sub (.name "a") (.const 0)]]
 example : ConfProg Cfg.preFix sample = true := by decide
+
+/-- the node handlers this model mirrors (dispatch in `aeval` is by handler NAME, so a handler that disappears or is
+renamed silently turns its node kind into `NotImplementedError`) -/
+def modelledHandlers : List String :=
+  ["ast_constant", "ast_name", "ast_binop", "ast_binop_add", "ast_binop_sub", "ast_binop_mult", "ast_binop_div",
+   "ast_binop_mod", "ast_binop_pow", "ast_binop_lshift", "ast_binop_rshift", "ast_binop_bitor", "ast_binop_bitxor",
+   "ast_binop_bitand", "ast_binop_floordiv", "ast_unaryop", "ast_unaryop_not", "ast_unaryop_invert", "ast_unaryop_uadd",
+   "ast_unaryop_usub", "ast_boolop", "ast_compare", "ast_cmpop_eq", "ast_cmpop_noteq", "ast_cmpop_lt", "ast_cmpop_lte",
+   "ast_cmpop_gt", "ast_cmpop_gte", "ast_cmpop_is", "ast_cmpop_isnot", "ast_cmpop_in", "ast_cmpop_notin", "ast_ifexp",
+   "ast_subscript", "ast_slice", "ast_attribute", "ast_call", "ast_list", "ast_tuple", "ast_set", "ast_dict",
+   "ast_joinedstr", "ast_formattedvalue", "ast_namedexpr", "ast_assign", "ast_augassign", "ast_delete", "ast_expr",
+   "ast_listcomp", "ast_setcomp", "ast_dictcomp", "ast_annassign", "ast_lambda"]
+
+/-- **Tie (translator).**  Every handler the model mirrors exists in the source tree that was extracted for this run. -/
+theorem C01_handlers_present : ∀ h ∈ modelledHandlers, h ∈ Gen.AST_HANDLERS := by decide
 
 end PsModel.C01
